@@ -15,13 +15,21 @@ Definition srec (w : nat) : sg_rec :=
 Definition lrec (t : nat) : sg_rec :=
   {| r_tid := t; r_op := OpLoad (o_load os) 2 COMPLETE; r_ret := None |}.
 
+(* the result of an is_set / of a get that does not reach the cell is computed from the value loaded *)
+Definition ret_wf (r : sg_rec) : Prop :=
+  match r_ret r with
+  | Some (RIsSet b) => exists i v, read_of r = Some (i, v) /\ b = (v =? COMPLETE)
+  | Some (RGet None) => exists i v, read_of r = Some (i, v) /\ v <> COMPLETE
+  | _ => True
+  end.
+
 (* facts that hold in every phase *)
 Record ginv (s : sg_state) : Prop := {
   gi_idx : forall t th, thr_at s t th -> th_idx th < length (g_msgs s);
   gi_prog : forall t th, thr_at s t th -> exists p, nth_error progs t = Some p /\ incl (th_calls th) p;
   gi_len : length (g_msgs s) <= 3;
   gi_shape : forall i v, nth_error (vals s) i = Some v -> v = i;   (* UNSET, LOADING, COMPLETE in this order *)
-  gi_isset : forall k r, rec_at s k r -> r_ret r = Some (RIsSet true) -> exists i, read_of r = Some (i, COMPLETE);
+  gi_ret : forall k r, rec_at s k r -> ret_wf r;
   gi_read : forall k r i v, rec_at s k r -> read_of r = Some (i, v) -> nth_error (vals s) i = Some v;
   gi_seen : forall k r i, rec_at s k r -> read_of r = Some (i, COMPLETE) ->
             exists th, thr_at s (r_tid r) th /\ 2 <= th_idx th;
@@ -89,7 +97,7 @@ Lemma ginv_commit s t th th' msgs' op ret ext :
   (forall i v, length (g_msgs s) <= i -> nth_error (map mval msgs') i = Some v -> v = i) ->
   th_idx th <= th_idx th' -> th_idx th' < length msgs' ->
   incl (th_calls th') (th_calls th) ->
-  (ret = Some (RIsSet true) -> exists i, read_of {| r_tid := t; r_op := op; r_ret := ret |} = Some (i, COMPLETE)) ->
+  ret_wf {| r_tid := t; r_op := op; r_ret := ret |} ->
   (forall i v, read_of {| r_tid := t; r_op := op; r_ret := ret |} = Some (i, v) ->
       nth_error (vals s) i = Some v /\ th_idx th <= i /\ i <= th_idx th') ->
   ginv (sg_commit s t th' msgs' op ret).
@@ -113,9 +121,9 @@ Proof.
     + apply (gi_shape _ G i v). unfold vals.
       subst msgs'. rewrite map_app, nth_error_app1 in H; auto. now rewrite map_length.
     + eapply Hnew; eauto.
-  - intros k r H Hr. destruct (snoc_cases _ _ _ _ H) as [[_ H']|[_ ->]].
-    + exact (gi_isset _ G _ _ H' Hr).
-    + cbn in Hr. apply Hisset. exact Hr.
+  - intros k r H. destruct (snoc_cases _ _ _ _ H) as [[_ H']|[_ ->]].
+    + exact (gi_ret _ G _ _ H').
+    + exact Hisset.
   - intros k r i v H Hr. apply Hvals. destruct (snoc_cases _ _ _ _ H) as [[_ H']|[_ ->]].
     + exact (gi_read _ G _ _ _ _ H' Hr).
     + apply (Hread _ _ Hr).
@@ -148,7 +156,7 @@ Qed.
 Lemma ginv_access s t th w v pc' calls' ret :
   ginv s -> thr_at s t th ->
   incl calls' (th_calls th) ->
-  (forall b, ret <> Some (RIsSet b)) ->
+  ret_wf {| r_tid := t; r_op := OpCell w v; r_ret := ret |} ->
   (ord_ok os = true -> races (th_known th) w (g_accs s) = false) ->
   ginv (sg_access_cell s t th w v pc' calls' ret).
 Proof.
@@ -164,9 +172,9 @@ Proof.
     + exact (gi_prog _ G _ _ H').
   - exact (gi_len _ G).
   - exact (gi_shape _ G).
-  - intros k r H Hr. destruct (snoc_cases _ _ _ _ H) as [[_ H']|[_ ->]].
-    + exact (gi_isset _ G _ _ H' Hr).
-    + cbn in Hr. exfalso. eapply Hret; eauto.
+  - intros k r H. destruct (snoc_cases _ _ _ _ H) as [[_ H']|[_ ->]].
+    + exact (gi_ret _ G _ _ H').
+    + exact Hret.
   - intros k r i x H Hr. destruct (snoc_cases _ _ _ _ H) as [[_ H']|[_ ->]].
     + exact (gi_read _ G _ _ _ _ H' Hr).
     + discriminate.
@@ -547,7 +555,7 @@ Lemma ginv_read_step s t th i m kn pc' calls' op ret :
   ginv s -> thr_at s t th -> th_idx th <= i -> nth_error (g_msgs s) i = Some m ->
   incl calls' (th_calls th) ->
   read_of {| r_tid := t; r_op := op; r_ret := ret |} = Some (i, mval m) ->
-  (ret = Some (RIsSet true) -> mval m = COMPLETE) ->
+  ret_wf {| r_tid := t; r_op := op; r_ret := ret |} ->
   ginv (sg_commit s t {| th_idx := i; th_known := kn; th_pc := pc'; th_calls := calls' |} (g_msgs s) op ret).
 Proof.
   intros G Hth Hle Hm Hincl Hread Hret.
@@ -556,7 +564,6 @@ Proof.
   - exact (gi_len _ G).
   - intros j v Hj H. apply nth_lt in H. rewrite map_length in H. lia.
   - eapply nth_lt; eauto.
-  - intros E. rewrite Hread. exists i. now rewrite (Hret E).
   - intros j v E. rewrite Hread in E. inversion E; subst. split; [|lia]. now apply vals_nth.
 Qed.
 
@@ -607,31 +614,31 @@ Proof.
     + lia.
     + rewrite app_length. cbn. lia.
     + apply incl_refl.
-    + discriminate.
+    + exact I.
     + intros j x E. cbn in E. inversion E; subst. split; [now apply vals_nth|lia].
   - (* CAS fails *)
     exists ph. split; [apply next_phase_refl|]. split; [|split].
     + eapply ginv_read_step; eauto.
       * rewrite Hcalls. apply incl_tl, incl_refl.
-      * discriminate.
+      * exact I.
     + eapply pinv_idle_read; eauto. discriminate.
     + auto.
   - (* get loads COMPLETE *)
     destruct (pinv_get_hit ph s t th i m G P Hth Hpc Hm Hval) as [_ P'].
     exists ph. split; [apply next_phase_refl|]. split; [|split]; auto.
-    eapply ginv_read_step; eauto; try apply incl_refl; try discriminate.
+    eapply ginv_read_step; eauto; try apply incl_refl; try exact I.
   - (* get loads something else *)
     exists ph. split; [apply next_phase_refl|]. split; [|split].
     + eapply ginv_read_step; eauto.
       * rewrite Hcalls. apply incl_tl, incl_refl.
-      * discriminate.
+      * red. cbn [r_ret]. exists i, (mval m). split; [reflexivity|auto].
     + eapply pinv_idle_read; eauto. intros x E. discriminate.
     + auto.
   - (* is_set *)
     exists ph. split; [apply next_phase_refl|]. split; [|split].
     + eapply ginv_read_step; eauto.
       * rewrite Hcalls. apply incl_tl, incl_refl.
-      * intros E. inversion E as [E']. now apply Nat.eqb_eq in E'.
+      * red. cbn [r_ret]. exists i, (mval m). split; [reflexivity|auto].
     + eapply pinv_idle_read; eauto. intros x E. discriminate.
     + auto.
   - (* cell write *)
@@ -639,7 +646,7 @@ Proof.
     exists (P2 t v). split; [right; reflexivity|]. split; [|split; [exact P'|discriminate]].
     eapply ginv_access; eauto.
     + apply incl_refl.
-    + discriminate.
+    + exact I.
     + intros _. rewrite Ha. reflexivity.
   - (* store COMPLETE *)
     destruct (pinv_store ph s t th P Hth Hpc) as (v & -> & Hlen & P').
@@ -654,14 +661,14 @@ Proof.
     + lia.
     + rewrite app_length. cbn. lia.
     + apply incl_tl_self.
-    + discriminate.
+    + exact I.
     + discriminate.
   - (* cell read *)
     destruct (pinv_read ph s t th P Hth Hpc) as (w & v & -> & Hc & Hrace & P').
     exists (P3 w v). split; [reflexivity|]. split; [|split; [exact P'|]].
     + eapply ginv_access; eauto.
       * apply incl_tl_self.
-      * discriminate.
+      * red. cbn [r_ret]. rewrite Hc. exact I.
     + intros _ _ _. split; reflexivity.
 Qed.
 
